@@ -15,13 +15,11 @@ open Bng AMap
 section vlan
 open Bng.Vlan
 
-/-- tag ranges the allocator is meant for: non-empty, and ending below 65535 — with `End = 65535` the guard
-    `tag <= End` of the uint16 loops in findAvailable / findAvailableCTag is always true and the counter wraps to 0
-    (finding KF-vlan-u16-wrap; VLAN ids are 12 bit, so real configurations satisfy this) -/
-def GoodCfg (c : Cfg) : Prop := c.sS ≤ c.sE ∧ c.cS ≤ c.cE ∧ c.sE < 65535 ∧ c.cE < 65535
-
-/-- every `load` of the history carries stored pairs inside the configured ranges -/
-def LoadsInRange (c : Cfg) (ops : List Op) : Prop := ∀ op ∈ ops, opInRange c op
+/-- tag ranges the allocator is meant for: both end below 65535.  With `End = 65535` the guard `tag <= End` of the uint16
+    loops in findAvailable / findAvailableCTag is always true and the counter wraps to 0 — the complement of `GoodCfg`
+    is exactly finding KF-vlan-u16-wrap (VLAN ids are 12 bit, so real configurations satisfy this).  Empty ranges
+    (Start > End) are allowed: nothing is ever handed out from an empty range (fix e67ca78). -/
+def GoodCfg (c : Cfg) : Prop := c.sE < 65535 ∧ c.cE < 65535
 
 /-- Bijection: after any history (allocate, allocate-with-outer-tag, release, load — conflicting and repeated loads
     included) the NTE → pair map and the pair → NTE map are mutually inverse partial functions. -/
@@ -38,25 +36,30 @@ theorem vlan_id_unique (c : Cfg) (ops : List Op) (n₁ n₂ : Nat) (p : Pair)
   rw [a] at b
   simpa using b
 
-/-- In range (PARTIAL: assumes the stored pairs given to LoadFromStore are in range — the code does not check
-    them, finding KF-vlan-load-range): every held pair lies inside the configured S-TAG and C-TAG ranges. -/
-theorem vlan_in_ranges_partial (c : Cfg) (hc : GoodCfg c) (ops : List Op) (hl : LoadsInRange c ops)
-    (n : Nat) (p : Pair) (h : AMap.lookup (run (init c) ops).allocs n = some p) :
+/-- In range, per NTE (PARTIAL only in this: a record that a `load` of the history itself named with an out-of-range
+    pair is exempt — LoadFromStore does not check stored pairs, finding KF-vlan-load-range): after any history,
+    whatever else was loaded for OTHER NTEs or pairs, NTE `n`'s pair `p` lies inside the configured S-TAG and C-TAG
+    ranges unless the record (n, p) is one of those out-of-range stored records. -/
+theorem vlan_in_ranges_partial (c : Cfg) (hc : GoodCfg c) (ops : List Op)
+    (n : Nat) (p : Pair) (h : AMap.lookup (run (init c) ops).allocs n = some p)
+    (hb : (n, p) ∉ badLoads c ops) :
     c.sS ≤ p.1 ∧ p.1 ≤ c.sE ∧ c.cS ≤ p.2 ∧ p.2 ≤ c.cE := by
-  have hR : RInv (init c) := ⟨Nat.le_refl _, hc.1, hc.2.1, hc.2.2.1, hc.2.2.2, by intro n p h; simp [init] at h⟩
-  have := (rinv_run hR ops hl).rng n p h
+  have hR := rinv_run (rinv_init (· ∈ badLoads c ops) c hc.1 hc.2) ops (opBadIn_badLoads c ops)
+  have := hR.rng n p h
   rw [run_cfg] at this
-  exact (inRange_iff c p).mp this
+  rcases this with h1 | h1
+  · exact (inRange_iff c p).mp h1
+  · exact absurd h1 hb
 
-/-- The defect outside the clause, on the model: a stored pair outside the ranges is held after `load`. -/
+/-- The defect inside the exemption, on the model: a stored pair outside the ranges is held after `load` — while the
+    pair the same history allocates to ANOTHER NTE is covered by the theorem above. -/
 theorem vlan_load_range_witness :
     let c : Cfg := { sS := 100, sE := 101, cS := 10, cE := 12 }
-    let ops : List Op := [.load [(1, (102, 10))]]
-    ¬ LoadsInRange c ops ∧ AMap.lookup (run (init c) ops).allocs 1 = some (102, 10) ∧ inRange c (102, 10) = false := by
-  refine ⟨?_, by decide, by decide⟩
-  intro h
-  have := h (.load [(1, (102, 10))]) (by simp) (1, (102, 10)) (by simp)
-  revert this; decide
+    let ops : List Op := [.load [(1, (102, 10))], .alloc 2]
+    (1, ((102, 10) : Pair)) ∈ badLoads c ops ∧ AMap.lookup (run (init c) ops).allocs 1 = some (102, 10) ∧
+    inRange c (102, 10) = false ∧
+    (2, ((100, 10) : Pair)) ∉ badLoads c ops ∧ AMap.lookup (run (init c) ops).allocs 2 = some (100, 10) := by
+  decide
 
 /-- The defect outside `GoodCfg`, on the model (finding KF-vlan-u16-wrap): with an S-TAG range ending at 65535 the
     uint16 loop counter of findAvailable wraps to 0 and Allocate hands out S-TAG 0, outside the range. -/
@@ -65,43 +68,32 @@ theorem vlan_u16_wrap_witness :
     ¬ GoodCfg c ∧ (alloc (run (init c) [.alloc 1, .alloc 2]) 3).2 = .okPair 0 1 ∧ inRange c (0, 1) = false := by
   refine ⟨?_, by decide, by decide⟩
   intro h
-  have := h.2.2.1
+  have := h.1
   revert this; decide
 
-/-- Pairs handed out by Allocate / AllocateWithSTag themselves are in range whatever was loaded before, as long as
-    the cursor invariant holds: here stated for the state reached by any history with in-range loads, for the
-    ANSWER of the next allocation. -/
-theorem vlan_alloc_answer_in_range (c : Cfg) (hc : GoodCfg c) (ops : List Op) (hl : LoadsInRange c ops)
-    (n s ct : Nat) (h : (alloc (run (init c) ops) n).2 = .okPair s ct) :
+/-- What Allocate itself hands out is in range whatever was loaded before: after ANY history (no hypothesis on the
+    loads), the pair a successful Allocate gives to an NTE that held nothing lies inside both ranges. -/
+theorem vlan_alloc_answer_in_range (c : Cfg) (hc : GoodCfg c) (ops : List Op)
+    (n s ct : Nat) (hn : AMap.lookup (run (init c) ops).allocs n = none)
+    (h : (alloc (run (init c) ops) n).2 = .okPair s ct) :
     c.sS ≤ s ∧ s ≤ c.sE ∧ c.cS ≤ ct ∧ ct ≤ c.cE := by
-  have hR : RInv (init c) := ⟨Nat.le_refl _, hc.1, hc.2.1, hc.2.2.1, hc.2.2.2, by intro n p h; simp [init] at h⟩
-  have hR' := rinv_alloc (rinv_run hR ops hl) n
+  have hR := rinv_run (rinv_init (fun _ => True) c hc.1 hc.2) ops
+    (by intro op _; cases op <;> simp [opBadIn])
   have hcfg : (run (init c) ops).cfg = c := run_cfg _ _
   generalize run (init c) ops = st at *
-  unfold alloc at h hR'
-  cases ha : AMap.lookup st.allocs n with
-  | some p =>
-    simp only [ha] at h hR'
-    have := hR'.rng n p ha
+  unfold alloc at h
+  simp only [hn] at h
+  cases hf : findAvail st with
+  | exhausted => simp [hf] at h
+  | hang => simp [hf] at h
+  | found p =>
+    simp only [hf] at h
+    have := findAvail_inRange hR hf
     rw [hcfg] at this
     have e := (inRange_iff c p).mp this
     simp only [Obs.okPair.injEq] at h
     obtain ⟨e1, e2⟩ := h
     subst e1; subst e2; exact e
-  | none =>
-    simp only [ha] at h hR'
-    cases hf : findAvail st with
-    | exhausted => simp [hf] at h
-    | hang => simp [hf] at h
-    | found p =>
-      simp only [hf] at h hR'
-      have := hR'.rng n p (by simp [record])
-      simp only [record] at this
-      rw [hcfg] at this
-      have e := (inRange_iff c p).mp this
-      simp only [Obs.okPair.injEq] at h
-      obtain ⟨e1, e2⟩ := h
-      subst e1; subst e2; exact e
 
 /-- Release frame: after any history, releasing NTE `n` (a) leaves every other NTE's pair unchanged, (b) leaves the
     owner of every other pair unchanged, (c) frees `n`'s pair in the reverse index, and (d) makes it reusable: if
@@ -155,20 +147,20 @@ theorem vlan_release_frame (c : Cfg) (hc : GoodCfg c) (ops : List Op) (n : Nat) 
       | found ct => exact ⟨ct, rfl⟩
       | exhausted =>
         exfalso
-        have := findC_exhausted hf (by rw [hcfg]; exact hc.2.2.2) p.2
+        have := findC_exhausted hf (by rw [hcfg]; exact hc.2) p.2
           (by rw [hcfg]; exact hr'.2.2.1) (by rw [hcfg]; exact hr'.2.2.2)
         exact this hfree
       | hang =>
-        exact absurd hf (findC_no_hang (by rw [hcfg]; exact hc.2.2.2) (by rw [hcfg]; exact hc.2.1))
+        exact absurd hf (findC_no_hang (by rw [hcfg]; exact hc.2))
 
 /-- Every key stays usable: Allocate reports exhaustion only when every pair of the configured ranges is held, so a
     released pair (and any other free pair) can always be allocated again. -/
-theorem vlan_exhausted_only_when_full (c : Cfg) (hc : GoodCfg c) (ops : List Op) (hl : LoadsInRange c ops) (n : Nat)
+theorem vlan_exhausted_only_when_full (c : Cfg) (hc : GoodCfg c) (ops : List Op) (n : Nat)
     (h : (alloc (run (init c) ops) n).2 = .exhausted) :
     ∀ s ct, c.sS ≤ s → s ≤ c.sE → c.cS ≤ ct → ct ≤ c.cE →
       ∃ n', AMap.lookup (run (init c) ops).usage (s, ct) = some n' := by
-  have hR0 : RInv (init c) := ⟨Nat.le_refl _, hc.1, hc.2.1, hc.2.2.1, hc.2.2.2, by intro n p h; simp [init] at h⟩
-  have hR := rinv_run hR0 ops hl
+  have hR := rinv_run (rinv_init (fun _ => True) c hc.1 hc.2) ops
+    (by intro op _; cases op <;> simp [opBadIn])
   have hcfg : (run (init c) ops).cfg = c := run_cfg _ _
   generalize run (init c) ops = st at *
   intro s ct h1 h2 h3 h4
@@ -189,11 +181,11 @@ theorem vlan_exhausted_only_when_full (c : Cfg) (hc : GoodCfg c) (ops : List Op)
 
 /-! non-vacuity -/
 example : GoodCfg { sS := 100, sE := 101, cS := 10, cE := 12 } := by unfold GoodCfg; decide
-example : LoadsInRange { sS := 100, sE := 101, cS := 10, cE := 12 }
-    [.load [(1, (100, 10)), (2, (100, 10))], .alloc 3, .release 1] := by
-  intro op h
-  simp only [List.mem_cons, List.not_mem_nil, or_false] at h
-  rcases h with h | h | h <;> subst h <;> simp [opInRange, inRange]
+/-- an empty C-TAG range satisfies `GoodCfg`, and nothing is handed out from it -/
+example : GoodCfg { sS := 100, sE := 101, cS := 12, cE := 10 } ∧
+    (alloc (init { sS := 100, sE := 101, cS := 12, cE := 10 }) 1).2 = .exhausted ∧
+    (allocWS (init { sS := 100, sE := 101, cS := 12, cE := 10 }) 1 100).2 = .exhausted := by
+  refine ⟨by unfold GoodCfg; decide, by decide, by decide⟩
 example : AMap.lookup (run (init { sS := 100, sE := 101, cS := 10, cE := 12 })
     [.load [(1, (100, 10)), (2, (100, 10))], .alloc 3, .allocWS 1 101]).allocs 1 = some (101, 10) := by decide
 
@@ -276,23 +268,26 @@ theorem pppsess_bijection_inv_sound (ops : List Op) (m id : Nat)
     (h : AMap.lookup (run init ops).mac2s m = some id) : AMap.lookup (run init ops).sessions id = some m :=
   (inv_run inv_init ops).snd m id h
 
-/-- Bijection (PARTIAL: for histories that never create a session for a MAC that already has a live one): the id → MAC
-    map and the MAC → id index are mutually inverse.  Without the hypothesis the converse direction fails
-    (finding KF-pppsess-mac-orphan, witness below). -/
-theorem pppsess_bijection_inv_partial (ops : List Op) (h1 : OnePerMac init ops) (m id : Nat) :
+/-- Bijection, per MAC (PARTIAL only in this: MACs that at some point had two live sessions are exempt, finding
+    KF-pppsess-mac-orphan): for every MAC `m` such that no `create m` of the history happened while a session of `m`
+    was live — whatever OTHER MACs did, double sessions included — the id → MAC map and the MAC → id index agree on
+    `m` in both directions. -/
+theorem pppsess_bijection_inv_partial (ops : List Op) (m : Nat) (h1 : OnePerMacFor m init ops) (id : Nat) :
     AMap.lookup (run init ops).sessions id = some m ↔ AMap.lookup (run init ops).mac2s m = some id :=
-  ⟨complete_run (by intro id m h; simp [init] at h) ops h1 id m, (inv_run inv_init ops).snd m id⟩
+  ⟨completeFor_run (by intro id h; simp [init] at h) ops h1 id, (inv_run inv_init ops).snd m id⟩
 
-/-- The defect outside the clause, on the model: two sessions from one MAC, the newer one removed — the older session
-    is live but the MAC index has no entry for it. -/
+/-- The defect inside the exemption, on the model: two sessions from MAC 1, the newer one removed — the older session is
+    live but the MAC index has no entry for it; MAC 2, in the same history, satisfies the hypothesis of the theorem. -/
 theorem pppsess_mac_orphan_witness :
-    let ops : List Op := [.create 1, .create 1, .remove 2]
-    ¬ OnePerMac init ops ∧ AMap.lookup (run init ops).sessions 1 = some 1 ∧
-      AMap.lookup (run init ops).mac2s 1 = none := by
-  refine ⟨?_, by decide, by decide⟩
-  intro h
-  have := h.2.1
-  exact this 1 (by decide)
+    let ops : List Op := [.create 1, .create 2, .create 1, .remove 3]
+    ¬ OnePerMacFor 1 init ops ∧ AMap.lookup (run init ops).sessions 1 = some 1 ∧
+      AMap.lookup (run init ops).mac2s 1 = none ∧
+    OnePerMacFor 2 init ops ∧ AMap.lookup (run init ops).mac2s 2 = some 2 := by
+  refine ⟨?_, by decide, by decide, ?_, by decide⟩
+  · intro h
+    exact h.2.2.1 rfl 1 (by decide)
+  · refine ⟨fun e => absurd e (by decide), fun _ => noLive_of_all (by decide), fun e => absurd e (by decide),
+      trivial, trivial⟩
 
 /-- Id uniqueness: whatever the history (id counter pre-set anywhere, wrap-around included), the id a successful
     CreateSession returns is not the id of any live session, and it is a valid PPPoE session id (never 0). -/
@@ -336,8 +331,9 @@ theorem pppsess_release_frame (ops : List Op) (id : Nat) :
     simp [create, hg, hne, search, hfree]
 
 /-! non-vacuity -/
-example : OnePerMac init [.setNext 65535, .create 1, .create 2, .remove 65535, .create 1] := by
-  refine ⟨trivial, ?_, ?_, trivial, ?_, trivial⟩ <;> exact noLive_of_all (by decide)
+example : OnePerMacFor 1 init [.setNext 65535, .create 1, .create 2, .remove 65535, .create 1] := by
+  refine ⟨trivial, fun _ => noLive_of_all (by decide), fun e => absurd e (by decide), trivial,
+    fun _ => noLive_of_all (by decide), trivial⟩
 example : (create (run init [.setNext 65535, .create 1]) 2).2 = .okId 1 := by decide
 
 end pppsess
